@@ -19,6 +19,33 @@ func (c *counter) add(who int) {
 	c.mu.Unlock()
 }
 
+type ticket struct {
+	n, sq int
+	tag   [2]int
+}
+
+type dispenser struct {
+	mu  sync.Mutex
+	cur ticket
+}
+
+// next returns the struct by value while the unlock is deferred: the result must
+// be copied before the deferred call runs.
+func (d *dispenser) next() ticket {
+	d.mu.Lock()
+	defer d.mu.Unlock()
+	d.cur.n++
+	d.cur.sq = d.cur.n * d.cur.n
+	d.cur.tag = [2]int{d.cur.n, -d.cur.n}
+	return d.cur
+}
+
+func (d *dispenser) peekTag() [2]int {
+	d.mu.Lock()
+	defer d.mu.Unlock()
+	return d.cur.tag
+}
+
 // Run has Param(0) workers each adding Param(1) times to a mutex-protected
 // counter and history slice.
 func Run() {
@@ -36,6 +63,48 @@ func Run() {
 		}(w)
 	}
 	wg.Wait()
+	// tickets: every worker draws per tickets; all must be distinct and consistent
+	d := &dispenser{}
+	got := make(chan ticket, 2*nw*per)
+	lists := make([][]ticket, nw)
+	var wg2 sync.WaitGroup
+	for w := 0; w < nw; w++ {
+		wg2.Add(1)
+		go func(k int) {
+			defer wg2.Done()
+			for i := 0; i < per; i++ {
+				// the call as an operand of append, of a send, and assigned
+				lists[k] = append(lists[k], d.next())
+				got <- d.next()
+				t := d.next()
+				tg := d.peekTag()
+				if tg[0] != -tg[1] {
+					t.sq = -1
+				}
+				got <- t
+			}
+		}(w)
+	}
+	wg2.Wait()
+	close(got)
+	seen := map[int]bool{}
+	bad := 0
+	for t := range got {
+		if seen[t.n] || t.sq != t.n*t.n || t.tag[0] != t.n || t.tag[1] != -t.n {
+			bad++
+		}
+		seen[t.n] = true
+	}
+	for _, l := range lists {
+		for _, t := range l {
+			if seen[t.n] || t.sq != t.n*t.n || t.tag[0] != t.n || t.tag[1] != -t.n {
+				bad++
+			}
+			seen[t.n] = true
+		}
+	}
+	host.Emit(3, len(seen))
+	host.Emit(4, bad)
 	host.Emit(0, c.n)
 	host.Emit(1, len(c.hist))
 	byWho := make([]int, nw)
